@@ -87,7 +87,7 @@ static double hl(const float* abcd, double phi_deg) {
   return abcd[0] * std::cos(p) + abcd[1] * std::sin(p) + abcd[2] * std::cos(2 * p) + abcd[3] * std::sin(2 * p);
 }
 
-enum { cH, cK, cL, cF, cPHI, cA, cB, cC, cD, cFP, cFM, cDANO, cFP2, cFM2, NCOL };
+enum { cH, cK, cL, cF, cPHI, cA, cB, cC, cD, cFP, cFM, cDANO, cFM2, cFP2, NCOL };
 
 static void init_merged(Mtz& mtz, const SpaceGroup& sg) {
   mtz.set_spacegroup(&sg);
@@ -100,8 +100,9 @@ static void init_merged(Mtz& mtz, const SpaceGroup& sg) {
     mtz.add_column(labels[i], types[i], 1, -1, false);
   // a second dataset that uses the same labels for its own (+)/(-) pair (half the values of the first)
   mtz.add_dataset("ds2");
-  mtz.add_column("F(+)", 'G', 2, -1, false);
+  // stored the other way round: the (-) column precedes its (+) partner
   mtz.add_column("F(-)", 'G', 2, -1, false);
+  mtz.add_column("F(+)", 'G', 2, -1, false);
 }
 
 static std::vector<float> truth_row(const Truth& t, const GroupOps& gops, const Miller& h, Lcg& rng) {
@@ -211,6 +212,44 @@ static std::string handle(const std::string& cmd, const std::string& args) {
          std::to_string(ad.v[0].hkl[2]) + " " + decode(std::arg(ad.v[0].value) * 180 / PI);
     return s;
   }
+  if (cmd == "pm") {
+    // model correspondence for Mtz::positions_of_plus_minus_columns and the (+)/(-) swap of Mtz::ensure_asu.
+    // args: columns as labelhex:type:dataset (the first three are H K L), then "|", then one row of small integers
+    // whose index (-1,-2,-3) is moved through its Friedel mate in P 1. Result: the pairs, "|", the row after ensure_asu
+    // (with the original index put back).
+    Mtz mtz;
+    mtz.set_spacegroup(&get_spacegroup_p1());
+    mtz.set_cell_for_all(UnitCell(30, 40, 50, 90, 90, 90));
+    size_t k = 0;
+    int maxds = 0;
+    std::vector<std::array<std::string, 3>> cols;
+    for (; k < w.size() && w[k] != "|"; ++k) {
+      size_t a = w[k].find(':'), b = w[k].rfind(':');
+      cols.push_back({{w[k].substr(0, a), w[k].substr(a + 1, b - a - 1), w[k].substr(b + 1)}});
+      maxds = std::max(maxds, (int) to_ll(cols.back()[2]));
+    }
+    for (int d = 0; d <= maxds; ++d) { mtz.datasets.emplace_back(); mtz.datasets.back().id = d; mtz.datasets.back().cell = mtz.cell; }
+    for (size_t i = 0; i < cols.size(); ++i) {
+      mtz.columns.emplace_back();
+      Mtz::Column& c = mtz.columns.back();
+      std::string lab;
+      for (size_t q = 0; q + 1 < cols[i][0].size(); q += 2) lab += (char) std::stoi(cols[i][0].substr(q, 2), nullptr, 16);
+      c.label = lab; c.type = (char) to_ll(cols[i][1]); c.dataset_id = (int) to_ll(cols[i][2]);
+      c.parent = &mtz; c.idx = i;
+    }
+    std::string s;
+    for (auto& pr : mtz.positions_of_plus_minus_columns())
+      s += (s.empty() ? "" : " ") + std::to_string(pr.first) + "-" + std::to_string(pr.second);
+    s += " |";
+    std::vector<float> row;
+    for (++k; k < w.size(); ++k) row.push_back((float) to_ll(w[k]));
+    if (row.size() != cols.size() || row.size() < 3) return "bad-args";
+    mtz.set_data(row.data(), row.size());
+    mtz.ensure_asu(false);
+    if (mtz.data.size() != row.size() || mtz.data[0] != -row[0] || mtz.data[1] != -row[1] || mtz.data[2] != -row[2]) return "bad-hkl";
+    for (size_t i = 0; i < row.size(); ++i) s += " " + std::to_string((int) (i < 3 ? row[i] : mtz.data[i]));
+    return s;
+  }
   if (cmd == "o_miller") {
     // make_miller_vector / count_reflections: args row dmin_x100 dmax_x100
     const SpaceGroup& sg = spacegroup_tables::main[to_ll(w.at(0))];
@@ -256,7 +295,16 @@ static std::string handle(const std::string& cmd, const std::string& args) {
       for (const Miller& p : orbit) listed += (int) us.count(p);
       if (listed != 1) return "bad orbit of " + hs(m) + " has " + std::to_string(listed) + " members in the unique list";
     }
-    if (n_all + 4 < full.size()) return "bad full list holds reflections outside the sphere";
+    // every listed reflection is inside the shell (with the library's own 1/d^2), present, and inside the cube just
+    // scanned; so the full list is exactly the set the brute force saw plus indices within rounding of a limit
+    size_t n_margin = 0;
+    for (const Miller& m : full) {
+      if (!in_range(m) || gops.is_systematically_absent(m)) return "bad full list holds " + hs(m);
+      if (std::abs(m[0]) > L || std::abs(m[1]) > L || std::abs(m[2]) > L) return "bad full list holds (outside the cube) " + hs(m);
+      double v = cell.calculate_1_d2(m), a1 = 1 / (dmin * dmin), a2 = dmax > 0 ? 1 / (dmax * dmax) : -1;
+      if (std::fabs(v - a1) < 1e-9 * a1 || std::fabs(v - a2) < 1e-9) ++n_margin;
+    }
+    if (n_all + n_margin != full.size()) return "bad full list holds reflections outside the sphere";
     return uniq.empty() ? "skip" : "ok";
   }
   if (cmd == "expand") {
